@@ -37,13 +37,14 @@ def run(P: Program, rep: Report):
                 mk = lambda c, *a, **k: new_obj(it, P, "model", c, *a, **k)
                 fields = [mk("Field", key=f"f{i}", value=v, start_line=i) for i, (lab, v, w) in enumerate(CASES)]
                 e = mk("Entry", entry_type="a", key="k", fields=AList(fields), start_line=0, raw="r")
-                e2 = mk("Entry", entry_type="a", key="k2", fields=AList([mk("Field", key="x", value="{plain}", start_line=0)]), start_line=0, raw="r")
+                e2 = mk("Entry", entry_type="a", key="k2", fields=AList([mk("Field", key="x", value="{plain}", start_line=0), mk("Field", key="y", value="s2", start_line=0)]), start_line=0, raw="r")
+                e3 = mk("Entry", entry_type="a", key="k3", fields=AList([mk("Field", key="x", value="{plain}", start_line=0)]), start_line=0, raw="r")
                 s1 = mk("String", key="s1", value=ONE, start_line=0, raw="r1")
                 s1b = mk("String", key="s1", value='"LATER"', start_line=0, raw="r1b")
                 s2 = mk("String", key="s2", value=TWO, start_line=0, raw="r2")
                 s3 = mk("String", key='"q"', value="QQ", start_line=0, raw="r3")
                 s4 = mk("String", key="{b}", value="BB", start_line=0, raw="r4")
-                order = {"before": [s1, s2, s3, s4, e, e2], "after": [e, e2, s2, s1, s4, s3], "duplicated": [s1, e, s1b, s2, s3, s4, e2], "none": [e, e2]}[layout]
+                order = {"before": [s1, s2, s3, s4, e, e2, e3], "after": [e, e2, e3, s2, s1, s4, s3], "duplicated": [s1, e, s1b, s2, s3, s4, e2, e3], "none": [e, e2, e3]}[layout]
                 lib = new_obj(it, P, "library", "Library")
                 call(it, lib, "add", AList(order))
                 try:
@@ -56,17 +57,24 @@ def run(P: Program, rep: Report):
                 ents = it.iterate(it.get_attr(out, "entries"))
                 vals = [it.get_attr(f, "value") for f in it.iterate(it.get_attr(ents[0], "fields"))]
                 meta = it.get_attr(ents[0], "parser_metadata")
-                meta2 = it.get_attr(ents[1], "parser_metadata")
+                meta2 = it.get_attr(ents[2], "parser_metadata")
+                v2 = it.get_attr(it.iterate(it.get_attr(ents[1], "fields"))[1], "value")
+                m1 = it.get_attr(ents[1], "parser_metadata")
                 strs = [(it.get_attr(s, "key"), it.get_attr(s, "value")) for s in it.iterate(it.get_attr(out, "blocks")) if isinstance(s, AObj) and s.cls.name == "String"]
                 nblocks = len(it.iterate(it.get_attr(out, "blocks")))
                 mk_ = call(it, mw, "metadata_key") if cls.find_method("metadata_key") else None
-                return ("return", (vals, meta, meta2, strs, nblocks, len(order), mk_))
+                return ("return", (vals, meta, meta2, strs, nblocks, len(order), mk_, v2, m1))
             for ctx, (kind, v) in explore(one, 50):
                 n += 1
                 if kind == "raise":
                     bad.setdefault(f"raises:{layout}", f"transform raises {v.cls_name()} ({layout})")
                     continue
-                vals, meta, meta2, strs, nblocks, nin, mkey = v
+                vals, meta, meta2, strs, nblocks, nin, mkey, v2, m1 = v
+                if v2 != (TWO if layout != "none" else "s2"):
+                    bad.setdefault("second-entry", f"a reference in a later entry becomes {v2!r} ({layout})")
+                r1 = m1.items.get(mkey) if isinstance(m1, ADict) else None
+                if layout != "none" and (not isinstance(r1, AList) or r1.items != ["y"]):
+                    bad.setdefault("second-entry-metadata", f"resolved keys of a later entry recorded as {r1!r}, expected ['y']")
                 resolved = []
                 for (lab, val, want), got in zip(CASES, vals):
                     w = want if layout != "none" else val
